@@ -61,6 +61,21 @@ pub fn unsupported(lang: Lang, d: &Desc) -> Option<String> {
             if unknown > 1 {
                 return Some("more than one field of unknown size in a declaration".into());
             }
+            // a size / count / element-size field declared after the array or payload it describes:
+            // accepted by the analyzer, but no parser can use a length it has not read yet (the
+            // Rust output does not compile, the Python output raises UnboundLocalError)
+            for (i, f) in fields.iter().enumerate() {
+                if let FieldKind::Size { field_id, .. } | FieldKind::Count { field_id, .. } | FieldKind::ElementSize { field_id, .. } = &f.kind {
+                    let target = fields.iter().position(|g| match &g.kind {
+                        FieldKind::Payload { .. } => field_id == "_payload_",
+                        FieldKind::Body => field_id == "_body_",
+                        _ => g.id() == Some(field_id.as_str()),
+                    });
+                    if target.map(|p| p < i).unwrap_or(false) {
+                        return Some("size/count field declared after its target".into());
+                    }
+                }
+            }
             if lang == Lang::Java && fields.iter().any(|f| matches!(f.kind, FieldKind::Body)) && d.children(&decl.id).next().is_none() {
                 return Some("_body_ without children (explicit panic in the Java backend)".into());
             }
